@@ -725,20 +725,152 @@ def check_block_walk(rule, g, gctx, gat, cfgname, name, N):
         rule.ok(site, g.loc(L), "merge join: on every feasible path the iterator with the smaller block key advances alone and at least one advances on equal keys (%d paths)" % nfeasible, cfgname)
 
 
+ACCUMULATING_METHODS = ("add_term", "push_back", "push_front", "insert", "emplace", "emplace_back")
+
+
+def _unreset_accumulators(db, f, depth=7):
+    """Objects whose state would be accumulated twice if f ran again.  f and every method that f (transitively, through
+    repository code) invokes ON ANOTHER ComputableObject (a part) is an *entry*; the members an entry grows -- itself or through
+    methods it calls on `this` -- by add_term / push_back / insert / container += must be reset (clear() / assignment, outside
+    loops) in the entry before the first statement that grows them.  Returns a list of texts, one per unreset member."""
+    out = []
+    seen = set()
+
+    def derives(rec):
+        todo, done = [rec], set()
+        while todo:
+            r_ = todo.pop()
+            if r_ in done:
+                continue
+            done.add(r_)
+            if r_ == "Pomerol::ComputableObject":
+                return True
+            todo.extend((db.records.get(r_) or {}).get("bases", []))
+        return False
+
+    def direct(g):
+        gctx = Ctx(g, db)
+        accs, resets, thiscalls, othercalls = [], [], [], []
+        for j, n in g.walk(g.body):
+            if n["k"] == "call" and n.get("ck") == "method" and n.get("obj") is not None:
+                ok_ = gctx.key(n["obj"], inline=False)
+                short = strip_targs(n.get("cname") or "").split("::")[-1]
+                if ok_[0] == "field" and len(ok_) == 3 and ok_[2] == THIS and short in ACCUMULATING_METHODS:
+                    accs.append((j, ok_[1]))
+                    continue
+                if ok_[0] == "field" and len(ok_) == 3 and ok_[2] == THIS and short in ("clear", "resize", "assign", "swap"):
+                    resets.append((j, ok_[1]))
+                    continue
+            elif (n["k"] == "bin" and n["op"] in ("=", "+=")) or (n["k"] == "call" and n.get("ck") == "op" and n.get("op") in ("=", "+=") and len(n.get("args", [])) == 2):
+                l_ = n["l"] if n["k"] == "bin" else n["args"][0]
+                lk = gctx.key(l_, inline=False)
+                if lk[0] == "field" and len(lk) == 3 and lk[2] == THIS:
+                    if n["op"] == "=":
+                        resets.append((j, lk[1]))
+                    elif "std::" in (g.nodes[l_].get("t") or "") and "complex" not in (g.nodes[l_].get("t") or ""):
+                        accs.append((j, lk[1]))
+                    continue
+            if n["k"] in ("call", "construct"):
+                cf = db.callee_fn(n)
+                if cf is None or cf.body is None or cf.body < 0 or cf.kind in ("ctor", "dtor") or not (cf.file or "").startswith(f.file.rsplit("/", 3)[0]):
+                    continue
+                onthis = n["k"] == "call" and n.get("ck") == "method" and n.get("obj") is not None and g.nodes[n["obj"]]["k"] == "this"
+                (thiscalls if onthis else othercalls).append((j, cf))
+        return accs, resets, thiscalls, othercalls
+
+    def grown(g, stack=()):
+        """{field: [node in g responsible]} through this-calls"""
+        accs, resets, thiscalls, _ = direct(g)
+        res = {}
+        for j, fq in accs:
+            res.setdefault(fq, []).append(j)
+        for j, cf in thiscalls:
+            if cf.mangled in stack:
+                continue
+            for fq in grown(cf, stack + (g.mangled,)):
+                res.setdefault(fq, []).append(j)
+        return res
+
+    def visit(g, d, entry):
+        key_ = (g.mangled, entry)
+        if key_ in seen or g.body is None or g.body < 0 or d < 0:
+            return
+        seen.add(key_)
+        accs, resets, thiscalls, othercalls = direct(g)
+        if entry and g.rec and derives(g.rec):
+            for fq, nodes_ in sorted(grown(g).items()):
+                for j in nodes_:
+                    pj = g.cfg.pos1(j)
+                    good = any(fq2 == fq and g.cfg.pos1(r_) is not None and pj is not None and g.cfg.dominates(g.cfg.pos1(r_), pj) and not enclosing_loops(g, r_) for r_, fq2 in resets)
+                    if not good:
+                        t = "%s grows its member %s (line %s) without resetting it first" % (g.qn, fq.split("::")[-1], g.loc(j).rsplit(":", 1)[-1])
+                        if t not in out:
+                            out.append(t)
+                        break
+        for j, cf in thiscalls:
+            visit(cf, d - 1, False)
+        for j, cf in othercalls:
+            visit(cf, d - 1, True)
+    visit(f, depth, True)
+    return out
+
+
 def check_status_guards(rule, db, cfgname, owners):
     """prepare()/compute() of a ComputableObject: `if (Status >= X) return;` at the top and `Status = Y;` at the end must
     name the same level, otherwise a second call either repeats the function's effects (accumulating results twice)
     or the function never runs."""
     ST = ("field", "Pomerol::ComputableObject::Status", THIS)
+    # a copy carries the Status of its source: a user-written copy constructor that copies the computed state (parts, results)
+    # but default-initialises the ComputableObject base leaves Status = Constructed on an object that already holds its parts,
+    # so the next prepare()/compute() on the copy runs again and every result is doubled
+    for c in sorted([x for x in db.fns.values() if x.rec in owners and x.kind == "ctor" and len(x.params) == 1 and x.body is not None and x.body >= 0 and
+                     x.rec in (x.params[0].get("t") or "") and "&" in (x.params[0].get("t") or "") and "&&" not in (x.params[0].get("t") or "")], key=lambda y: (y.file, y.line)):
+        cctx = Ctx(c, db)
+        src = ("param", c.params[0]["d"], c.params[0]["n"])
+        inits = c.d.get("inits", [])
+        if not any(i.get("written") for i in inits) and not [1 for _ in c.walk(c.body) if _[1]["k"] not in ("block", "null")]:
+            continue        # compiler-style member-wise copy
+        base = [i for i in inits if i.get("base") == "Pomerol::ComputableObject"]
+        site = "%s:copy-keeps-status" % c.qn
+        # "state that Status describes" = the fields prepare()/compute() of the class write (parts, Vanishing, result ...)
+        from pv.effects import Effects
+        eff = Effects(db)
+        computed = set()
+        for pc in [x for x in db.fns.values() if x.rec == c.rec and x.body is not None and x.body >= 0 and strip_targs(x.name).split("::")[-1] in ("prepare", "compute")]:
+            computed |= {w for w in eff.this_writes(pc) if not w.startswith("deref:") and not w.endswith("::Status")}
+        is_computed_field = lambda y: y[0] == "field" and len(y) == 3 and y[1] in computed and y[2][:2] == src[:2]
+        copies_state = any(i.get("field") and i.get("e") is not None and key_contains(cctx.key(i["e"]), is_computed_field) for i in inits) or \
+            any(key_contains(cctx.key(j), is_computed_field) for j, n in c.walk(c.body) if n["k"] in ("call", "bin", "for", "forrange", "decl") or n.get("init") is not None)
+        if not copies_state:
+            for j, n in c.walk(c.body):
+                try:
+                    if key_contains(cctx.key(j), is_computed_field):
+                        copies_state = True
+                        break
+                except Exception:
+                    continue
+        st_assigned = any(n["k"] == "bin" and n["op"] == "=" and cctx.key(n["l"], inline=False) == ST and cctx.key(n["r"]) == ("field", "Pomerol::ComputableObject::Status", src) for j, n in c.walk(c.body))
+        if not base and not st_assigned:
+            continue        # the class does not derive from ComputableObject directly (handled where its base is copied)
+        bk = cctx.key(base[0]["e"]) if base and base[0].get("e") is not None else None
+        if st_assigned or (bk is not None and (bk == src or key_contains(bk, lambda y: y[:2] == src[:2]))):
+            rule.ok(site, c.loc(), "the ComputableObject base (Status) is copied from the source together with the state it describes", cfgname)
+        elif copies_state:
+            rule.bad(site, c.loc(), "the copy constructor copies the object's state from %s but default-initialises its ComputableObject base: the copy holds the prepared / computed data with Status = Constructed, "
+                     "so prepare()/compute() on the copy do their work a second time (parts appended twice, every value doubled)" % src[2], cfgname)
     for f in sorted([x for x in db.fns.values() if x.rec in owners and x.body is not None and x.body >= 0 and
                      strip_targs(x.name).split("::")[-1] in ("prepare", "compute")], key=lambda y: (y.file, y.line, len(y.params))):
         ctx = Ctx(f, db)
         guards, sets = [], []
+        weakened = []
         body = f.nodes[f.body]
         for s_ in body.get("body", []) if body["k"] == "block" else []:
             n = f.nodes[s_]
             if n["k"] == "if" and n.get("else") is None and any(m["k"] == "return" for _, m in f.walk(n["then"])) and not any(m["k"] in ("call",) and m.get("ck") == "method" for _, m in f.walk(n["then"])):
-                for fct in ctx.cmp_fact(n["c"], True):
+                allf = ctx.cmp_fact(n["c"], True)
+                if len(allf) > 1 and any(ST in fct[1:] for fct in allf if fct[0] in ("<", "<=", "==")):
+                    weakened.append((s_, [fct for fct in allf if not (fct[0] in ("<", "<=", "==") and ST in fct[1:])]))
+                for fct in allf:
                     if fct[0] in ("<", "<=", "==") and ST in fct[1:] and any(x[0] == "enum" for x in fct[1:]):
                         en = [x for x in fct[1:] if x[0] == "enum"][0]
                         # Status >= X  is normalised to  X <= Status
@@ -755,6 +887,17 @@ def check_status_guards(rule, db, cfgname, owners):
                     sets.append((j, rk))
         if not guards or not sets:
             continue
+        if weakened:
+            # the early return fires only under a further condition: the function can run again on a computed object, so
+            # everything it (or a part it drives) accumulates must be reset first
+            acc_probs = _unreset_accumulators(db, f)
+            wsite = "%s/%d:rerun-resets-accumulators" % (f.qn, len(f.params))
+            extra_ = "; ".join(sorted(str(x)[:60] for x in weakened[0][1]))
+            if acc_probs:
+                rule.bad(wsite, f.loc(weakened[0][0]), "the early return of a finished object is taken only if also {%s}; otherwise the function runs again, and %s: every repeated call adds the same contributions once more" % (
+                    extra_, "; ".join(acc_probs[:2])), cfgname)
+            else:
+                rule.ok(wsite, f.loc(weakened[0][0]), "runs again when {%s} fails; everything it accumulates is cleared first" % extra_, cfgname)
         site = "%s/%d:idempotent" % (f.qn, len(f.params))
         g_, s_last = guards[0], sets[-1]
         if g_[2] == "other":
